@@ -116,6 +116,21 @@ def run(ctx):
         ctx.ob(R2, 'writer-uses-get_to_string', uw, 'write_file_blocking must print cells with ArrayImpl::get_to_string')
         ctx.ob(R2, 'reader-uses-push_str', ur, 'read_file_blocking must parse cells with ArrayBuilderImpl::push_str')
 
+    R3 = 'C20-R3'
+    ctx.rule(R3, 'every column type the writer can print has a parsing arm in the reader: ArrayBuilderImpl::push_str handles every '
+                 'ArrayBuilderImpl variant without diverging')
+    adt = prog.adts.get('array::ArrayBuilderImpl')
+    if ps is not None and ctx.anchor(R3, 'adt array::ArrayBuilderImpl', adt is not None):
+        handled = set()
+        for i, bl in enumerate(ps.blocks):
+            t = bl['term']
+            if t['k'] == 'switch' and (t.get('adt') or '').endswith('array::ArrayBuilderImpl'):
+                handled |= {t['variants'].get(v, v) for v, tg in t['targets'] if not ps.diverges(tg)}
+                if not ps.diverges(t['otherwise']):
+                    handled.add('*')
+        for v in [x['name'] for x in adt['variants']]:
+            ctx.ob(R3, f'push_str·{v}', v in handled or '*' in handled, f'push_str arm for {v}: {v in handled}')
+
 
 def __pl(p):
     from mir import operand_places
